@@ -6,7 +6,7 @@
 //	-full  file[,file...] additionally make goroutines, channel operations,
 //	                      selects, close() and timers visible to the scheduler:
 //	                        go f()            -> vsched.Go("f", func() { f() })
-//	                        ch <- v           -> { vsched.BeforeSend(ch); ch <- v }
+//	                        ch <- v           -> { tok := vsched.BeforeSend(ch); ch <- v; vsched.AfterSend(tok) }
 //	                        stmt with <-ch    -> { vsched.BeforeRecv(ch); stmt }
 //	                        close(ch)         -> { vsched.Closed(ch); close(ch) }
 //	                        select {...}      -> switch vsched.Select(hasDefault, R(a), S(b)...) {case 0: <comm>; body ...}
@@ -103,6 +103,7 @@ type rw struct {
 	needVT   bool // vtime import
 	timeName string
 	counter  int
+	nTmp     int
 }
 
 func (r *rw) pos(n ast.Node) string { return r.fset.Position(n.Pos()).String() }
@@ -308,8 +309,29 @@ func (r *rw) stmt(s ast.Stmt) []ast.Stmt {
 	case *ast.SendStmt:
 		r.exprs(v.Value)
 		pre := r.recvHooks(v.Value)
-		pre = append(pre, r.hook("BeforeSend", v.Chan))
-		return append(pre, v)
+		// tok := vsched.BeforeSend(ch); ch <- v; vsched.AfterSend(tok)
+		// (AfterSend parks the sender again after a rendezvous on an
+		// unbuffered channel; a no-op otherwise)
+		r.needVS = true
+		r.nTmp++
+		// the value is evaluated before the send can block (it may be a call
+		// with scheduling points of its own)
+		hasCall := false
+		ast.Inspect(v.Value, func(n ast.Node) bool {
+			if _, ok := n.(*ast.CallExpr); ok {
+				hasCall = true
+			}
+			return !hasCall
+		})
+		if hasCall {
+			val := fmt.Sprintf("vschedSendVal%d", r.nTmp)
+			pre = append(pre, &ast.AssignStmt{Lhs: []ast.Expr{ast.NewIdent(val)}, Tok: token.DEFINE, Rhs: []ast.Expr{v.Value}})
+			v.Value = ast.NewIdent(val)
+		}
+		tok := fmt.Sprintf("vschedSendTok%d", r.nTmp)
+		pre = append(pre, &ast.AssignStmt{Lhs: []ast.Expr{ast.NewIdent(tok)}, Tok: token.DEFINE,
+			Rhs: []ast.Expr{call(sel("vsched", "BeforeSend"), v.Chan)}})
+		return append(pre, v, exprStmt(call(sel("vsched", "AfterSend"), ast.NewIdent(tok))))
 	case *ast.ExprStmt:
 		r.exprs(v.X)
 		// close(ch)
@@ -422,6 +444,27 @@ func (r *rw) selectStmt(s *ast.SelectStmt) ast.Stmt {
 	var cases []ast.Expr
 	sw := &ast.SwitchStmt{Body: &ast.BlockStmt{}}
 	idx := 0
+	// A channel operand that is not a plain variable / field (time.After(d),
+	// a function result) is evaluated exactly once, as in a real select: it is
+	// bound to a temporary that both vsched.Select and the case's own
+	// communication use.
+	var hoisted []ast.Stmt
+	hoist := func(ch ast.Expr) ast.Expr {
+		hasCall := false
+		ast.Inspect(ch, func(n ast.Node) bool {
+			if _, ok := n.(*ast.CallExpr); ok {
+				hasCall = true
+			}
+			return !hasCall
+		})
+		if !hasCall {
+			return ch
+		}
+		r.nTmp++
+		id := ast.NewIdent(fmt.Sprintf("vschedSelCh%d", r.nTmp))
+		hoisted = append(hoisted, &ast.AssignStmt{Lhs: []ast.Expr{id}, Tok: token.DEFINE, Rhs: []ast.Expr{ch}})
+		return ast.NewIdent(id.Name)
+	}
 	for _, c := range s.Body.List {
 		cc := c.(*ast.CommClause)
 		body := r.stmts(cc.Body)
@@ -434,6 +477,7 @@ func (r *rw) selectStmt(s *ast.SelectStmt) ast.Stmt {
 		switch cm := cc.Comm.(type) {
 		case *ast.SendStmt:
 			r.exprs(cm.Value)
+			cm.Chan = hoist(cm.Chan)
 			cases = append(cases, call(sel("vsched", "S"), cm.Chan))
 		case *ast.ExprStmt:
 			u, ok := cm.X.(*ast.UnaryExpr)
@@ -441,6 +485,7 @@ func (r *rw) selectStmt(s *ast.SelectStmt) ast.Stmt {
 				die("%s: odd select comm", r.pos(cm))
 			}
 			r.exprs(u.X)
+			u.X = hoist(u.X)
 			cases = append(cases, call(sel("vsched", "R"), u.X))
 		case *ast.AssignStmt:
 			u, ok := cm.Rhs[0].(*ast.UnaryExpr)
@@ -448,6 +493,7 @@ func (r *rw) selectStmt(s *ast.SelectStmt) ast.Stmt {
 				die("%s: odd select comm", r.pos(cm))
 			}
 			r.exprs(u.X)
+			u.X = hoist(u.X)
 			cases = append(cases, call(sel("vsched", "R"), u.X))
 			// `case v := <-ch:` with v unused in the body would not compile as a
 			// plain statement; keep Go happy with `_ = v`
@@ -471,5 +517,8 @@ func (r *rw) selectStmt(s *ast.SelectStmt) ast.Stmt {
 	}
 	args := append([]ast.Expr{ast.NewIdent(hd)}, cases...)
 	sw.Tag = call(sel("vsched", "Select"), args...)
+	if len(hoisted) > 0 {
+		return &ast.BlockStmt{List: append(hoisted, sw)}
+	}
 	return sw
 }
